@@ -212,6 +212,11 @@ def search_posterior(tier):
 def search_evidence(tier):
     found = []
     for cell in _cells(tier):
+        if cell["target"] == "narrow":
+            # log Z-hat of a 64-particle run on a posterior 1e8 times smaller than the prior spreads by ~2 nats per run, so its MEAN is
+            # below log Z by Jensen's inequality on correct code too (soak on the unchanged tree: -3.6, z = -9): the cell says
+            # nothing about C02 and is used for the posterior oracle (C01) only
+            continue
         r = run_cell(cell, "evidence", 24 if tier == "quick" else 64)
         if r["fails"]:
             found.append(r)
